@@ -136,6 +136,11 @@ func (f *Future[T]) close(v any) {
 	f.tellForwarders(toSend, f.message, f.err)
 }
 
+// Closed 返回 Future 是否已经完成（成功、失败或超时）。
+func (f *Future[T]) Closed() bool {
+	return f.closed.Load()
+}
+
 func (f *Future[T]) Result() (T, error) {
 	<-f.done
 	return f.message, f.err
